@@ -61,7 +61,11 @@ def resolve_after_edit(case, cfg, rng):
     if not pep.list_of_performance_metrics:
         return None
     met = pep.list_of_performance_metrics[0]
-    pep.add_constraint(met <= (0.5 * ret if ret > 1e-6 else ret - 0.5))
+    if rng.random() < 0.4:
+        # one more performance metric, smaller than the others: the objective of the next solve is the minimum of all of them
+        pep.set_performance_metric(0.5 * met if ret > 1e-6 else met - 0.5)
+    else:
+        pep.add_constraint(met <= (0.5 * ret if ret > 1e-6 else ret - 0.5))
     bd = driver.boundary()
     n0 = len(bd.records)
     with contextlib.redirect_stdout(io.StringIO()):
